@@ -78,14 +78,33 @@ impl UpdateTrailingTrivia for full_moon::ast::luau::TypeAssertion {
 }
 
 
-// proxy for full_moon::node::Node (sealed by a private supertrait, cannot be specified): same role
-pub trait VNode {}
-impl VNode for Expression {}
-impl VNode for BinOp {}
-impl VNode for UnOp {}
-impl VNode for TokenReference {}
-impl<'a, T: VNode> VNode for &'a T {}
-impl<T: VNode> VNode for Box<T> {}
+// proxy for full_moon::node::Node (sealed by a private supertrait, cannot be specified): same role,
+// same method names the in-repo code calls (start_position / end_position / surrounding_trivia().0)
+pub enum NodeKey { Stmt(Stmt), Last(LastStmt), Field(int), Other(int) }
+pub uninterp spec fn pos_bytes(p: Position) -> usize;
+pub uninterp spec fn node_start(k: NodeKey) -> Option<Position>;
+pub uninterp spec fn node_end(k: NodeKey) -> Option<Position>;
+pub trait VNode {
+    spec fn key(&self) -> NodeKey;
+    fn start_position(&self) -> (r: Option<Position>) ensures r == node_start(self.key());
+    fn end_position(&self) -> (r: Option<Position>) ensures r == node_end(self.key());
+    fn leading_trivia_vec(&self) -> (r: Vec<&Token>);
+}
+pub uninterp spec fn other_key<T>(x: T) -> int;
+//@@VNODE_IMPLS@@
+impl<'a, T: VNode> VNode for &'a T {
+    open spec fn key(&self) -> NodeKey { (**self).key() }
+    #[verifier::external_body] fn start_position(&self) -> (r: Option<Position>) { unimplemented!() }
+    #[verifier::external_body] fn end_position(&self) -> (r: Option<Position>) { unimplemented!() }
+    #[verifier::external_body] fn leading_trivia_vec(&self) -> (r: Vec<&Token>) { unimplemented!() }
+}
+impl<T: VNode> VNode for Box<T> {
+    open spec fn key(&self) -> NodeKey { (**self).key() }
+    #[verifier::external_body] fn start_position(&self) -> (r: Option<Position>) { unimplemented!() }
+    #[verifier::external_body] fn end_position(&self) -> (r: Option<Position>) { unimplemented!() }
+    #[verifier::external_body] fn leading_trivia_vec(&self) -> (r: Vec<&Token>) { unimplemented!() }
+}
+pub assume_specification [Position::bytes] (p: Position) -> (r: usize) ensures r == pos_bytes(p);
 
 pub trait GetLeadingTrivia {
     fn leading_trivia(&self) -> Vec<Token>;
